@@ -116,13 +116,25 @@ class ParserModel:
             raise Unrecognised(self.rule, f'only {len(self.kind_regex)} statement kinds identified from the regex table', self.mod.rel)
         # comment / continuation / split regexes
         self.comment_regex = self.cont_regex = None
-        for n in ast.walk(self.loop):
+        # from the regex table itself: the comment regex accepts a blank line and mentions '#'; the continuation regex is backslash, blanks, end
+        for rn, rx in self.regexes.items():
+            if not rn.startswith('_R_SCRIPT'):
+                continue
+            pat = rx.pattern
+            if '#' in pat and not rx.mandatory_chars() and self.comment_regex is None:
+                self.comment_regex = rn
+            if pat.startswith('\\\\') and pat.endswith('$') and self.cont_regex is None:
+                self.cont_regex = rn
+        for n in (ast.walk(self.loop) if (self.comment_regex is None or self.cont_regex is None) else []):
             if isinstance(n, ast.Call) and isinstance(n.func, ast.Attribute) and isinstance(n.func.value, ast.Name) and n.func.value.id in self.regexes:
                 rn = n.func.value.id
                 if n.func.attr == 'match' and rn not in [r for rs in self.kind_regex.values() for r in rs]:
                     self.comment_regex = rn
                 elif n.func.attr == 'sub' and n.args and norm(n.args[-1]) != self.line_var and 'line' in norm(n.args[-1]):
                     self.cont_regex = self.cont_regex or rn
+
+        if self.comment_regex is None or self.cont_regex is None:
+            raise Unrecognised(self.rule, f'comment / continuation regex not identified ({self.comment_regex}, {self.cont_regex})', self.mod.rel)
 
     def classify_regex(self, rname):
         rx = self.regexes[rname]
@@ -167,31 +179,20 @@ class ParserModel:
 
     # ---- run the loop over abstract lines
     def lower(self, lines, start_env=None, fail_parse=None):
-        """-> ('ok', script ADict, interp) | ('error', RaiseSig, interp)"""
+        """-> ('ok', script ADict, interp) | ('error', RaiseSig, interp)
+        parse_script is evaluated as a whole on the abstract input "a list of chunks, one abstract physical line each" (the line-split regex applied to
+        an abstract line yields that line), so the verdict does not depend on how the line loop is written (helpers, generators, table-driven dispatch)."""
         it = Interp(self.mod, self.rule)
+        it.repo = self.repo
+        it.max_depth = 12
         it.fail_parse = fail_parse
-        env = {'start_line_number': Sym('start'), 'script_text': Sym('script_text')}
-        for a in self.func.args.args:
-            env.setdefault(a.arg, Sym(a.arg))
+        params = [a.arg for a in self.func.args.args]
+        args = [AList(list(lines)), Sym('start')][:len(params)]
         try:
-            for s in self.prologue:
-                used = {n.id for n in ast.walk(s) if isinstance(n, ast.Name)}
-                if 'script_text' in used or (isinstance(s, ast.Expr) and isinstance(s.value, ast.Constant)):
-                    continue
-                it.exec_stmt(s, env)
-            tgt = self.loop.target
-            for i, ln in enumerate(lines):
-                it.assign(tgt, (i, ln), env) if isinstance(tgt, ast.Tuple) else it.assign(tgt, ln, env)
-                try:
-                    it.exec_block(self.loop.body, env)
-                except ContinueSig:
-                    pass
-            it.exec_block(self.epilogue, env)
+            val = it.call_function(self.func, args, self.func)
         except RaiseSig as sig:
             return 'error', sig, it
-        except ReturnSig as r:
-            return 'ok', r.value, it
-        return 'ok', None, it
+        return 'ok', val, it
 
 
 # --------------------------------------------------------------------------- shapes
